@@ -370,6 +370,17 @@ func genWire(tier string) []proto.Item {
 			}
 		}
 	}
+	// IPv6: a hop re-marks the probe's traffic class (DSCP), so every error generated downstream quotes a header whose first
+	// byte is no longer 0x60: those replies are accepted replies like any other
+	for _, v := range proto.Variants {
+		vi := proto.Info(v)
+		if !vi.Parallel || !vi.V6 {
+			continue
+		}
+		s := proto.Scn{Variant: v, First: 1, Last: 5, Dest: 4, IPIDBase: 700, EchoBase: 71, TimeoutMs: 100, DelayMs: 10}
+		s.Hops = map[int]proto.HopSpec{2: {Form: "teQtos"}, 3: {Form: "teQtos"}}
+		items = append(items, proto.Item{Scn: s, Class: fmt.Sprintf("wire/%s/r1-5/traffic-class-re-marked", v)})
+	}
 	// SACK probes overtaking each other / lost on the way to the target around the 2^32 wrap: which TTL a multi-block
 	// acknowledgement is credited to must not depend on the connection's initial sequence number or on the schedule
 	for _, it := range c05.ForwardReorder(tier, 700, 71) {
